@@ -7,9 +7,12 @@ TOPH = 10 ** 9
 
 def _obs(h, ret):
     cnt = h.last + 1
-    ps = [h.p[k] for k in range(cnt)]
+    # a corrupted structure (`last` beyond the arrays, identifiers out of range) must surface as a
+    # disagreement with the model, not as a crash of the harness
+    ps = [h.p[k] if 0 <= k < len(h.p) else -99 for k in range(cnt)]
     cost = [TOPH if c == FLOAT_MAX else int(c) for c in h.cost]
-    return f"{ret} {cnt} | {ints(ps)} | {ints(h.pos[x] for x in ps)} | {ints(h.color)} | {ints(cost)}"
+    pos = [h.pos[x] if isinstance(x, int) and 0 <= x < len(h.pos) else -99 for x in ps]
+    return f"{ret} {cnt} | {ints(ps)} | {ints(pos)} | {ints(h.color)} | {ints(cost)}"
 
 
 BOOST = int(os.environ.get("VERIF_BOOST", "1"))
